@@ -514,9 +514,45 @@ def rule_initial_state(ctx, rep, pid):
     check_initial_state(ctx, rep, pid + '.R7')
 
 
+def rule_dispatch_discipline(ctx, rep, rid, arms_of_interest):
+    """process_event: nothing returns before the event kind was dispatched, and within the named arms every
+    piece of accounting happens before the machines are notified (no store reachable from a transition call)"""
+    prog, an = ctx.prog, ctx.an
+    fn = prog.fn(FW, 'Framework', 'process_event')
+    fa = an.get(fn)
+    pf = an.paths(fn, history=True)
+    names = set(prog.variants('maybenot::event::TriggerEvent'))
+    for r in fa.cfg.returns:
+        st = pf.at_entry(r)
+        ok, w = all_paths(st, lambda S: any(f[0] == 'variant' and f[2] in names and root_of(f[1]) == ('param', 2) for f in S) or
+                          any(f[0] == 'notvariant' and root_of(f[1]) == ('param', 2) for f in S))
+        rep.ob(rid, fn, 'no-return-before-dispatch', ok and bool(st), '' if ok else 'a path returns without having switched on the event kind: ' + show_facts(w))
+    arms = event_arms(prog, fa)
+    acct_fields = ('padding_sent_packets', 'normal_sent_packets', 'padding_sent', 'normal_sent', 'blocking_active', 'blocking_started', 'blocking_duration')
+    for var in arms_of_interest:
+        head = arms.get(var)
+        if head is None:
+            continue
+        region = {b for b in fa.cfg.reachable_from(head) if fa.cfg.dominates(head, b)}
+        tcalls = [b for (b, f, a, t) in calls(fa) if b in region and callee_str(f).endswith('Framework::<M, R, T>::transition')]
+        acct = []
+        for (pe, v, site, mp) in stores(fa):
+            lf = last_field(pe)
+            if site[0] in region and lf and lf[1] in acct_fields and lf[1] not in ('padding_sent', 'normal_sent'):
+                acct.append((lf[1], site[0]))
+        for (b, f, a, t) in calls(fa):
+            if b in region and decl_matches(f, ('AddAssign::add_assign',)) and a and a[0][0] == 'ref' and is_field(a[0][1], 'blocking_duration', 'Framework'):
+                acct.append(('blocking_duration', b))
+        bad = [(n, sb) for (n, sb) in acct for tb in tcalls if tb != sb and fa.cfg.can_reach(tb, sb)]
+        rep.ob(rid, fn, 'arm:%s:framework-accounting-precedes-transitions' % var, not bad,
+               'framework-wide accounting reachable after a machine was already notified: %s' % sorted({n for n, _ in bad}) if bad else 'ok')
+
+
 def check_C02(ctx, rep):
     pid = 'C02'
     rule_initial_state(ctx, rep, pid)
+    rep.rule(pid + '.R8', 'dispatch discipline in process_event: no path returns before the event kind was dispatched; framework-wide accounting of an arm happens before any machine is notified')
+    rule_dispatch_discipline(ctx, rep, pid + '.R8', ('PaddingSent', 'NormalSent'))
     rule_gating(ctx, rep, pid)
     rule_kind_table(ctx, rep, pid)
     check_padding(ctx, rep, pid)
@@ -795,6 +831,8 @@ def check_clock(ctx, rep, pid):
 def check_C03(ctx, rep):
     pid = 'C03'
     rule_initial_state(ctx, rep, pid)
+    rep.rule(pid + '.R8', 'dispatch discipline in process_event: no path returns before the event kind was dispatched (a BlockingBegin/BlockingEnd is accounted whatever id it carries); the blocking state is updated before any machine is notified')
+    rule_dispatch_discipline(ctx, rep, pid + '.R8', ('BlockingBegin', 'BlockingEnd'))
     from .rules_fw import check_time_impl
     check_time_impl(ctx, rep, pid + '.R6')
     rule_gating(ctx, rep, pid)
@@ -1047,7 +1085,15 @@ def check_limit_reached(ctx, rep, pid):
             names = var[:1] if var else [x['name'] for x in prog.adt('maybenot::action::Action')['variants'] if x['name'] not in nots]
             for n in names:
                 hasl = any(fl['name'] == 'limit' for fl in prog.variant('maybenot::action::Action', n)['fields'])
-                if hasl:
+                if hasl and num(v) is not None:
+                    # constant under a tested limit: must agree with the test (matches!-style)
+                    def lim(f2):
+                        return contains(f2[1], lambda x: isinstance(x, tuple) and x and x[0] == 'fld' and x[3] == 'limit' and x[2].endswith('Action')) and \
+                            contains(f2[1], lambda x: isinstance(x, tuple) and x and x[0] == 'var' and x[2] == n)
+                    some = any(f2[0] == 'variant' and f2[2] == 'Some' and lim(f2) for f2 in S)
+                    none = any(f2[0] == 'variant' and f2[2] == 'None' and lim(f2) for f2 in S)
+                    ok = (bool(num(v)) and some) or (not num(v) and none)
+                elif hasl:
                     ok = is_call(v, 'is_some')
                     if ok:
                         x = v[2][0]
